@@ -386,11 +386,10 @@ structure NdState where
 def getstate (a : Arr) : NdState := ⟨a.shape, a.kind, a.data⟩
 
 /-- `ndarray.__setstate__` on a freshly made array (`np.ndarray.__new__(ndarray, (0,), 'b')` for
-the subclass route, `np.array([])` for the wrapper route): everything is overwritten -/
-def setstate (_fresh : Arr) (st : NdState) : Arr := ⟨st.shape, st.kind, st.raw⟩
-
-def emptyB : Arr := ⟨[0], .bool, []⟩      -- np.ndarray.__new__(np.ndarray, (0,), 'b')
-def emptyF : Arr := ⟨[0], .real, []⟩      -- np.array([])
+the subclass route, `np.array([])` for the wrapper route): everything is overwritten, so the fresh array
+does not appear.  Memory order (the `is_fortran` flag) is not modelled: the model's arrays have no layout;
+the harness's round-trip oracle covers it on the real code. -/
+def setstate (st : NdState) : Arr := ⟨st.shape, st.kind, st.raw⟩
 
 /-- NumPy's `same_kind` rule for writing a ufunc result of class `r` into an array of class `x` -/
 def canCastInto (r x : Kind) : Bool :=
@@ -691,8 +690,6 @@ structure Policy where
   reduce : Tag → Arr → Tag
   /-- result of a NumPy *function* that does not preserve subclasses (`np.where`) -/
   func : List Tag → Arr → Tag
-  /-- the freshly made array `__setstate__` overwrites when unpickling -/
-  fresh : Arr
 
 /-- bare NumPy: 0-d results become scalars -/
 def bareTag (a : Arr) : Tag := if a.shape.isEmpty then .scalar else .plain
@@ -703,7 +700,6 @@ def oldPolicy : Policy where
   ufunc ts a := match leftGrid ts with | some g => .field g | none => bareTag a
   reduce t a := match t with | .field g => .field g | _ => bareTag a
   func _ _ := .plain          -- subok is not honoured: a base-class ndarray comes back
-  fresh := Prim.emptyB        -- `_field_reconstruct`: np.ndarray.__new__(np.ndarray, (0,), 'b')
 
 /-- Wrapper route: unwrap, call the kernel, `if isinstance(result, np.ndarray): Field(result,
 self.grid) else result` — a 0-d result is a NumPy scalar and stays bare. -/
@@ -715,7 +711,6 @@ def newPolicy : Policy where
     | .field g => if a.shape.isEmpty then .scalar else .field g
     | _ => bareTag a
   func ts _ := match leftGrid ts with | some g => .field g | none => .plain   -- `__array_function__`
-  fresh := Prim.emptyF        -- `NewStyleField.__setstate__`: self.data = np.array([])
 
 /-- `x[i]`: both `ndarray.__getitem__` (then `__array_finalize__`) and
 `NewStyleField.__getitem__` (`np.isscalar(res)`) keep the tag unless NumPy returned a scalar -/
@@ -826,7 +821,7 @@ def eval (P : Policy) (gs : Grids) (look : Nat → Except Err Val) : Expr → Ex
     match eval P gs look e with
     | .error err => .error err
     | .ok v =>
-      .ok (Prim.setstate P.fresh (Prim.getstate v.1), v.2)
+      .ok (Prim.setstate (Prim.getstate v.1), v.2)
   | .app1 f e =>
     match eval P gs look e with
     | .error err => .error err
@@ -884,9 +879,17 @@ def bind (vars : List (Nat × α)) (x : Nat) (r : α) : List (Nat × α) :=
 
 def evalO (gs : Grids) (s : OState) (e : Expr) : Except Err Val := eval oldPolicy gs s.look e
 
+/-- a bare variable on the right-hand side: Python's `x = y` binds a second name to the same object — that
+is the statement `.alias x y`, not an assignment of a new object.  `.assign x (.var y)` is therefore outside
+the model (`.unsupported`, which matches no behaviour of the running code). -/
+def Expr.isVar : Expr → Bool
+  | .var _ => true
+  | _ => false
+
 /-- one statement; the result names the variable to observe -/
 def stepO (gs : Grids) (s : OState) : Stmt → Except Err OState
   | .assign x e =>
+    if e.isVar then .error .unsupported else
     (evalO gs s e).map fun v => { vars := bind s.vars x s.cells.length, cells := s.cells ++ [v] }
   | .alias h x =>
     match s.vars.lookup x with
@@ -930,6 +933,7 @@ def iopTagN (tx te : Tag) : Tag :=
 
 def stepN (gs : Grids) (s : NState) : Stmt → Except Err NState
   | .assign x e =>
+    if e.isVar then .error .unsupported else
     (evalN gs s e).map fun v => { vars := bind s.vars x (s.bufs.length, v.2), bufs := s.bufs ++ [v.1] }
   | .alias h x =>
     match s.vars.lookup x with
